@@ -112,11 +112,16 @@ def r1(ctx):
             for cbi, ct, m2, c2 in sites:
                 if c2 and cbi in after and cbi != mbi:
                     bad.append((mt["f"].get("name"), ct["f"].get("name"), ct["sp"]))
-        key = sorted({"%s->%s" % (a, c) for a, c, _ in bad})
-        ctx.check(not bad, "C06.R1", op, "no-commit-point-after-first-mutation",
-                  "one transaction access per operation (mutating calls: %s)" % [m[1]["f"].get("name") for m in muts] if not bad else
-                  "after the mutation by `%s` the operation calls `%s`, which goes through Store::modify/tables again and commits the open transaction when it is older than MAX_COMMIT_DELAY: the first half of the operation can become durable without the second (%s)" % (bad[0][0], bad[0][1], key),
-                  bad[0][2] if bad else b.sp)
+        pairs = {}
+        for a, c, sp in bad:
+            pairs.setdefault("%s->%s" % (a, c), sp)
+        if not pairs:
+            ctx.ok("C06.R1", op, "no-commit-point-after-first-mutation", "one transaction access per operation after the first mutation (mutating calls: %s)" % [m[1]["f"].get("name") for m in muts], b.sp)
+        for pair, sp in sorted(pairs.items()):
+            a, c = pair.split("->")
+            ctx.bad("C06.R1", op, "commit-point-after-mutation[%s]" % pair,
+                    "after the mutation by `%s` the operation calls `%s`, which goes through Store::modify/tables again and commits the open "
+                    "transaction when it is older than MAX_COMMIT_DELAY: the first half of the operation can become durable without the second" % (a, c), sp)
     ctx.floor("C06.R1", 7)
 
 
